@@ -33,7 +33,9 @@ CONSTANTS
   AllowList,     \* listing allowed?
   UsageOn,       \* usage database configured?
   Blur,          \* blur interval, 0 = none
-  Welcome        \* token describing the configured welcome notices
+  Welcome,       \* token describing the configured welcome notices
+  BadMoods       \* mood values SQLite cannot bind (JSON arrays / objects): outside the input domain of the
+                 \* properties, but the harness sends them to provoke a failure in the middle of a close
 
 ABSENT == "~"      \* a missing message field / SQL NULL string / Python None
 NULLT  == -1       \* SQL NULL in a numeric column
@@ -437,6 +439,9 @@ Handle(S, c, m, gid, pick) ==
         tr1 == IF cn.held THEN <<>> ELSE <<Snap(o.db, u)>>
     IN IF o.res = "integrity" THEN Boom(d, u, <<>>, "IntegrityError")
        ELSE IF o.res = "crowded" THEN Fin(cn, o.db, u, <<FErr(c, "crowded", CI(tr1))>>, tr1)
+       \* Mailbox.close: the two look-ups, then the UPDATE fails to bind the mood
+       ELSE IF m.mood \in BadMoods /\ MbRows(o.db, a, i) # {} /\ (\E x \in o.db.mbs : x.mbox = i /\ x.side = s)
+            THEN Boom(o.db, u, tr1, "ProgrammingError")
        ELSE LET r   == Close(o.db, u, a, i, s, m.mood, t)
                 tr  == tr1 \o r.tr
                 cn2 == [cn EXCEPT !.held = FALSE, !.listening = FALSE, !.didClose = TRUE]
